@@ -110,8 +110,24 @@ contract('DataReader.recv_piece', module=M, props=['C05', 'C09', 'C14'],
                   'result == (self.EOD is None)', 'self.size >= old(self.size)'],
          checks=['implies(old(self.EOD) is not None, ncalls("IO.raw_recv") == 0)'],
          raises={'ConnectionLost': [], 'Timeout': [], 'OSError': [],
-                 'MessageTooBig': ['self.EOD is not None', 'DR_ok(self)']},
+                 # the piece that overflowed the limit has been taken in like any other: the line bookkeeping is intact
+                 'MessageTooBig': ['DR_ok(self)', 'self.max_size is not None and self.size > cast(self.max_size, Int)',
+                                   'implies(old(self.EOD) is not None, False)']},
          modifies=['self.i', 'self.EOD', 'self.size', 'contents(self.lines)', 'fresh'])
+
+# EOD_LINE(r): the reader has seen the end-of-data line (and recorded where)
+predicate('EOD_LINE(r)', 'r.EOD is not None and 0 <= cast(r.EOD, Int) and cast(r.EOD, Int) < len(r.lines)')
+contract('DataReader._discard_rest', module=M, props=['C09', 'C05', 'C14'],
+         params={'self': 'DataReader'},
+         requires=['DR_ok(self)', 'in_timeout_scope()'],
+         # an over-long message is consumed up to its end-of-data line before the reader gives up: what follows that
+         # line (and only that) goes back to the command buffer
+         ensures=['DR_ok(self)', 'EOD_LINE(self)'],
+         checks=['ncalls("DataReader.return_all") == 1'],
+         raises={'ConnectionLost': [], 'Timeout': [], 'OSError': [], 'AssertionError': []},
+         modifies=['self.i', 'self.EOD', 'contents(self.lines)', 'self.io.recv_buffer', 'fresh'],
+         loops={0: dict(modifies=['self.i', 'self.EOD', 'contents(self.lines)', 'fresh'],
+                        inv=['DR_ok(self)'])})
 
 contract('DataReader.return_all', module=M, props=['C05', 'C09'],
          params={'self': 'DataReader'}, returns='Bytes',
@@ -127,7 +143,10 @@ contract('DataReader.recv', module=M, props=['C05', 'C09', 'C14'],
          params={'self': 'DataReader'}, returns='Bytes',
          requires=['DR_ok(self)', 'in_timeout_scope()', 'self.size >= 0'],
          ensures=['self.EOD is not None'],
-         raises={'ConnectionLost': [], 'Timeout': [], 'OSError': [], 'MessageTooBig': [], 'AssertionError': []},
+         # C09: when the reader gives up on an over-long message the stream has been consumed up to the end-of-data
+         # line (_discard_rest) -- otherwise the rest of the CONTENT is what the command parser reads next
+         raises={'ConnectionLost': [], 'Timeout': [], 'OSError': [], 'AssertionError': [],
+                 'MessageTooBig': ['EOD_LINE(self)', 'ncalls("DataReader._discard_rest") == 1']},
          modifies=['self.i', 'self.EOD', 'self.size', 'contents(self.lines)', 'self.io.recv_buffer', 'fresh'],
          loops={0: dict(inv=['DR_ok(self)', 'self.size >= 0'])})
 
@@ -137,11 +156,3 @@ bounded(['C09', 'C05'], 'bounded/regex_contracts.py',
         'real compiled patterns (all strings <= 6 over {. CR LF a SP})')
 
 
-# C09 twin of recv_piece: when the reader gives up on an over-long message the stream must have been consumed up to
-# the end-of-data line -- otherwise the rest of the CONTENT is what the command parser reads next (open finding)
-contract('DataReader.recv_piece#eod', qual='DataReader.recv_piece', module=M, props=['C09'],
-         params={'self': 'DataReader'}, returns='Bool',
-         requires=['DR_ok(self)', 'in_timeout_scope()', 'self.size >= 0'],
-         raises={'ConnectionLost': [], 'Timeout': [], 'OSError': [],
-                 'MessageTooBig': ['eod_pattern.match(self.lines[cast(self.EOD, Int)]) is not None']},
-         modifies=['self.i', 'self.EOD', 'self.size', 'contents(self.lines)', 'fresh'])
